@@ -9,12 +9,13 @@ Ltac Zify.zify_post_hook ::= Z.div_mod_to_equations.
 
 (* powers of two used by the generated text, as literals for lia *)
 Lemma p63 : 2 ^ 63 = 9223372036854775808. Proof. reflexivity. Qed.
+Lemma p61 : 2 ^ 61 = 2305843009213693952. Proof. reflexivity. Qed.
 Lemma p62 : 2 ^ 62 = 4611686018427387904. Proof. reflexivity. Qed.
 Lemma p64 : 2 ^ 64 = 18446744073709551616. Proof. reflexivity. Qed.
 Lemma p32 : 2 ^ 32 = 4294967296. Proof. reflexivity. Qed.
 Lemma p31 : 2 ^ 31 = 2147483648. Proof. reflexivity. Qed.
 
-Ltac pows := rewrite ?p63, ?p62, ?p64, ?p32, ?p31 in *.
+Ltac pows := rewrite ?p63, ?p62, ?p61, ?p64, ?p32, ?p31 in *.
 
 (* turn one boolean comparison (the condition of the next `if`/guard) into a Prop, both ways *)
 Ltac bdestr b :=
